@@ -11,6 +11,7 @@ mod c06;
 mod c07;
 mod c08;
 mod c09;
+mod c10;
 mod c13;
 mod c14;
 mod c15;
@@ -41,6 +42,9 @@ fn main() {
         "c07" => c07::run(&args[2..]),
         "c08" => c08::run(&args[2..]),
         "c09" => c09::run(&args[2..]),
+        "c10" => c10::run(&args[2..], "c10"),
+        "c11" => c10::run(&args[2..], "c11"),
+        "c12" => c10::run(&args[2..], "c12"),
         "c05" => c05::run(&args[2..]),
         "c03" => c03::run(&args[2..]),
         "c04" => c04::run(&args[2..]),
